@@ -13,6 +13,9 @@ def project(extra_roots=()):
 
 
 def filename_for(package):
+    """package: False/0 = top-level script, True/1 = module of package fx_pkg, 2 = module of the nested package fx_pkg.inner"""
+    if package == 2:
+        return os.path.join(FIXTURES, 'fx_pkg', 'inner', 'gen_prog.py')
     return os.path.join(FIXTURES, 'fx_pkg', 'gen_prog.py') if package else os.path.join(FIXTURES, 'gen_prog.py')
 
 
